@@ -52,4 +52,7 @@ fi
 timeout -k 5 "${MUT_TIMEOUT:-1500}" "$S/target/release/$PKG" run --tier quick --seed "${VERIF_SEED:-0}" "$@" > "$S/run.log" 2>&1
 rc=$?
 grep -E "^(VIOLATION|  generator=|KNOWN-FINDING|INCONCLUSIVE)" "$S/run.log" | head -8
+# same triage of a process abort as ./check does
+grep -E "^(ABORTED|HUNG)-WHILE " "$S/run.log" > "$S/run.aborted" 2>/dev/null
+/verif/tools/abort_triage.sh "$ID" "$S/target/release/$PKG" "$S/run.aborted" "$rc" || rc=$?
 echo "MUTANT-RESULT $ID $PATCH rc=$rc"
